@@ -37,12 +37,17 @@ def errJson' : Option CMErr → List (String × Json)
   | some (.sameGroup pe e) => [("res", "group"), ("pair", Json.arr #[pe, e])]
   | some (.upa pe e) => [("res", "upa"), ("pair", Json.arr #[pe, e])]
 
-/-- request: {"v11","n","model","einfo","defined","sigma","types","fuel"}
+/-- request: {"v11","n","model","smodel","einfo","defined","sigma","types","fuel"}
     answer:  {"m": port of check_model, "o": proved oracle} -/
 def handle (j : Json) : Except String Json := do
   let v11 ← getBool j "v11"
   let n ← getNat j "n"
   let (p, nodes) ← parseParticle (← j.getObjVal? "model")
+  -- the same tree with occurrence ids (differs from `model` only when a particle object is shared by
+  -- two places of the model): what S and O read
+  let ps ← match j.getObjVal? "smodel" with
+    | .ok sm => (·.1) <$> parseParticle sm
+    | .error _ => pure p
   let infos ← (← getArr j "einfo").toList.mapM parseEInfo
   let defined ← (← getArr j "defined").toList.mapM parseQN
   let sigma ← (← getArr j "sigma").toList.mapM parseQN
@@ -54,13 +59,13 @@ def handle (j : Json) : Except String Json := do
   let mJ := Json.mkObj (errJson' r.err ++ [
     ("precs", Json.arr (r.precs.map fun (w, e) => Json.arr #[w, e]).toArray),
     ("trace", Json.arr (r.trace.map fun (a, b, d) => Json.arr #[a, b, d]).toArray)])
-  let oJ := match upaOracle sigma v11 p fuel with
+  let oJ := match upaOracle sigma v11 ps fuel with
     | .cert S => Json.mkObj [("upa", "det"), ("states", S.length)]
     | .witness u c1 c2 => Json.mkObj [("upa", "nondet"),
         ("wit", Json.mkObj [("u", Json.arr (u.map symJson).toArray), ("c1", symJson c1), ("c2", symJson c2)])]
     | .unknown => Json.mkObj [("upa", "unknown")]
-  return Json.mkObj [("m", mJ), ("o", oJ), ("edc", edcCheck types p),
-    ("nsyms", (symsOf sigma p).length)]
+  return Json.mkObj [("m", mJ), ("o", oJ), ("edc", edcCheck types ps),
+    ("nsyms", (symsOf sigma ps).length)]
 
 end XsVerif.Driver.C15
 
